@@ -28,4 +28,9 @@ for m in muts:
         if ln.startswith(('VIOLATION', 'UNDECIDED', 'CHECKER')):
             print('      ', ln[:220])
     res.append((m['name'], r.returncode))
+    rf = os.path.join(ROOT, 'specs', 'mutants_results.json')
+    allres = json.load(open(rf)) if os.path.exists(rf) else {}
+    allres[m['name']] = {'property': m['property'], 'verdict': verdict, 'exit': r.returncode,
+                         'lines': [ln[:200] for ln in r.stdout.splitlines() if ln.startswith(('VIOLATION', 'UNDECIDED'))][:3]}
+    json.dump(allres, open(rf, 'w'), indent=1, sort_keys=True)
 sys.exit(0 if all(c == 1 for _, c in res) else 1)
